@@ -408,8 +408,11 @@ func (c *client) handleSignalMessage(runtimeMessage DecodedRuntimeMessage) {
 		return
 	}
 	c.mutex.Lock()
-	defer c.mutex.Unlock() // Hold lock until we send to the channel to prevent premature closing of the channel.
 	signalChannel, found := c.runningStepEmittedSignalChannels[runtimeMessage.RunID]
+	c.mutex.Unlock()
+	// The mutex is not held during the send below: the channel is only ever closed by this goroutine (the read loop,
+	// when it processes the run's result), so it cannot be closed prematurely, and a receiver that reacts to the signal
+	// by calling the client (another Execute, Close) would otherwise wait for the mutex while we wait for the receiver.
 	if !found {
 		c.logger.Warningf(
 			"Step with run ID '%s' sent signal '%s'. Ignoring; signal handling is not implemented "+
